@@ -150,6 +150,7 @@ static void op_golden_load(Exec& x, const Json& op, int)
 {
 	const Entry* e = corpus_entry(op.str("file"));
 	if (!e) { x.harness("golden corpus entry " + op.str("file") + " cannot be read"); return; }
+	x.vars["golden_file"] = Json(op.str("file"));
 	x.sb.restore_all(e->snap);
 	// inodes handed out from now on must not collide with the restored ones
 	for (auto& kv : e->snap) if (kv.second.vino >= sim_sh->next_vino) sim_sh->next_vino = kv.second.vino + 1;
@@ -233,7 +234,12 @@ static void op_golden_resave(Exec& x, const Json& op, int)
 		if (a.blocks.size() != b.blocks.size()) { x.violation("C16", "resaved-file-differs", what + ": " + kv.first + " block count changed"); continue; }
 		for (size_t i = 0; i < a.blocks.size(); ++i) {
 			if (b.blocks[i].state != BS_BLK || a.blocks[i].state != BS_BLK) continue;
-			if (a.blocks[i].hash != b.blocks[i].hash) { x.violation("C16", "resaved-hash-differs", what + ": " + kv.first + strf(" block %zu: hash recorded by the reference version %s, now %s", i, hex(b.blocks[i].hash.data(), b.blocks[i].hash.size()).c_str(), hex(a.blocks[i].hash.data(), a.blocks[i].hash.size()).c_str())); break; }
+			// a stripe still on the previous hash may be migrated by the command: its new hash is judged by the always-on
+			// reference-hash oracle, the position must stay
+			uint32_t pos = b.blocks[i].pos;
+			bool migrating = pos < before.info.size() && before.info[pos].present && before.info[pos].rehash;
+			if (migrating) x.probe("golden.blocks_on_previous_hash_compared");
+			if (!migrating && a.blocks[i].hash != b.blocks[i].hash) { x.violation("C16", "resaved-hash-differs", what + ": " + kv.first + strf(" block %zu: hash recorded by the reference version %s, now %s", i, hex(b.blocks[i].hash.data(), b.blocks[i].hash.size()).c_str(), hex(a.blocks[i].hash.data(), a.blocks[i].hash.size()).c_str())); break; }
 			if (a.blocks[i].pos != b.blocks[i].pos) { x.violation("C16", "resaved-position-differs", what + ": " + kv.first + strf(" block %zu moved from %u to %u", i, b.blocks[i].pos, a.blocks[i].pos)); break; }
 		}
 	}
@@ -373,7 +379,7 @@ static bool make_one(const std::string& outdir, int idx, const std::string& ref_
 		c.np = lm == 6 ? 3 : lm + 1;
 		c.splits.assign((size_t)c.np, 1);
 		c.hash_size = 16;
-		c.block_kib = variant == 3 ? 4 : 1;
+		c.block_kib = variant == 4 ? 4 : 1;
 		c.parity_limit = 0;
 		c.autosave_at = 0;
 		c.filters.clear();
@@ -420,7 +426,19 @@ static bool make_one(const std::string& outdir, int idx, const std::string& ref_
 			p.ops.push_back(Json::obj().set("k", "clock").set("adv", (int64_t)rng.range(100, 100000)));
 			add_sync({ "-E", "-Z" });
 		}
-		if (rng.chance(1, 2)) {
+		if (variant == 3) {
+			// a hash migration in progress: the array is switched to the other hash kind, a new file is synced with the new
+			// hash and a partial scrub migrates some of the old stripes; the rest still carries the previous hash and seed
+			p.ops.push_back(Json::obj().set("k", "rehash").set("seed", rng.next() >> 1));
+			new_file((int)rng.below(nd));
+			add_sync({});
+			CmdSpec s;
+			s.cmd = "scrub";
+			s.opts = { "-p", strf("%d", (int)rng.range(20, 60)), "-o", "0" };
+			s.sched_seed = rng.next() >> 1;
+			p.ops.push_back(Json::obj().set("k", "clock").set("adv", (int64_t)86400 * 3));
+			p.ops.push_back(op_cmd(s, "ok"));
+		} else if (rng.chance(1, 2)) {
 			// some arrays carry scrub information
 			CmdSpec s;
 			s.cmd = "scrub";
@@ -431,6 +449,7 @@ static bool make_one(const std::string& outdir, int idx, const std::string& ref_
 		}
 		desc = strf("hash %c size %d, %d parity levels%s, %u disks, block %d KiB", c.hash, c.hash_size, c.np, c.zmode ? " (z mode)" : "", nd, c.block_kib);
 		if (variant == 1) desc += strf(", split parity with limit %lld", (long long)c.parity_limit);
+		if (variant == 3) desc += ", hash migration in progress (written with this kind, being migrated to the other)";
 	}
 	std::string root = shm + strf("/mk%d_%d", idx, salt);
 	Exec x(root, p);
@@ -448,7 +467,7 @@ static bool make_one(const std::string& outdir, int idx, const std::string& ref_
 	CmdResult ck = x.simple("check");
 	if (ck.exit_code != 0) { fprintf(stderr, "mkgolden %d: check of the reference version on its own array exits %d\n", idx, ck.exit_code); return false; }
 	Entry e;
-	e.cfg = p.cfg;
+	e.cfg = x.sb.cfg; // the hash kind forced on the command line follows a migration
 	e.snap = x.sb.snapshot_all();
 	e.now_s = x.sb.now_s;
 	e.wcount = x.sb.wcount;
@@ -458,6 +477,16 @@ static bool make_one(const std::string& outdir, int idx, const std::string& ref_
 	std::string out;
 	entry_to_json(e, gens).dump(out, 0);
 	out += "\n";
+	if (!vectors && idx / 14 == 3) {
+		// really in progress?
+		std::vector<LoadedContent> cs = load_contents(x.sb);
+		const LoadedContent* lc = first_good(cs);
+		unsigned old_ = 0, new_ = 0;
+		if (lc) for (auto& i : lc->c.info) if (i.present) (i.rehash ? old_ : new_)++;
+		if (!lc || !lc->c.prev_hash_kind || !old_ || !new_) { fprintf(stderr, "mkgolden %d: migration not in progress (%u old, %u new)\n", idx, old_, new_); return false; }
+		desc += strf(" [%u stripes on the previous hash, %u migrated]", old_, new_);
+		e.desc = desc;
+	}
 	std::string name = vectors ? strf("vec-%c.json", p.cfg.hash) : strf("arr-%03d.json", idx);
 	if (!write_file(outdir + "/" + name, out)) return false;
 	printf("%s: %s (%zu nodes, %zu bytes)\n", name.c_str(), desc.c_str(), e.snap.size(), out.size());
